@@ -51,6 +51,130 @@ def _c11_case(c):
     return {"prep": prep, "pushes": pushes, "preserve": preserve}
 
 
+# ---------- in-Coq re-evaluation of a sample (cross-checks extraction + OCaml driver) ----------
+
+def _vm_bytes(b):
+    return "(@nil N)" if not b else "[" + "; ".join("%d%%N" % c for c in b) + "]"
+
+
+def _vm_hexstr(h):
+    from binascii import unhexlify
+    return _vm_bytes(b"" if h == "-" else unhexlify(h))
+
+
+def _vm_path(s):
+    segs = [x for x in s.split("/") if x]
+    return "(@nil (list N))" if not segs else "[" + "; ".join(_vm_bytes(x.encode("latin-1")) for x in segs) + "]"
+
+
+def _vm_list(xs, ty):
+    return "(@nil %s)" % ty if not xs else "[" + "; ".join(xs) + "]"
+
+
+def _c11_vm_goal(case, out):
+    t = case.split(" ")
+    pos = [0]
+
+    def nxt():
+        v = t[pos[0]]
+        pos[0] += 1
+        return v
+    bits = nxt()
+    g = "(mkCfg %s)" % " ".join("true" if c == "1" else "false" for c in bits)
+    pres = "true" if nxt() == "1" else "false"
+    wd = _vm_path(unhex(nxt()))
+    cwd = _vm_path(unhex(nxt()))
+    ents, cont, ino = [], [], 0
+    for _ in range(int(nxt())):
+        k = nxt()
+        if k == "d":
+            ents.append("(%s, NDir)" % _vm_path(unhex(nxt())))
+        elif k == "l":
+            pth = _vm_path(unhex(nxt()))
+            ents.append("(%s, sym_node %s)" % (pth, _vm_hexstr(nxt())))
+        else:
+            pth = _vm_path(unhex(nxt()))
+            tag = int(nxt())
+            ents.append("(%s, NFile %d)" % (pth, ino))
+            cont.append("(%d, %d%%N)" % (ino, tag * 1024 + 420))
+            ino += 1
+    fs = "(mkFS %s %s %d [])" % (_vm_list(ents, "(path * node)"), _vm_list(cont, "(nat * N)"), ino)
+    ops = []
+    for _ in range(int(nxt())):
+        k = nxt()
+        if k == "B":
+            title = _vm_hexstr(nxt())
+            ops.append("PBlob %s %d%%N" % (title, int(nxt())))
+        else:
+            title = _vm_hexstr(nxt())
+            es = []
+            for _ in range(int(nxt())):
+                ek = nxt()
+                if ek == "r":
+                    nm = _vm_hexstr(nxt())
+                    tg = int(nxt())
+                    es.append("EReg %s %d%%N %d%%N" % (nm, tg, int(nxt())))
+                elif ek == "d":
+                    nm = _vm_hexstr(nxt())
+                    es.append("EDir %s %d%%N" % (nm, int(nxt())))
+                elif ek in ("h", "s"):
+                    nm = _vm_hexstr(nxt())
+                    es.append("%s %s %s" % ("EHard" if ek == "h" else "ESym", nm, _vm_hexstr(nxt())))
+                else:
+                    es.append("EOther %s" % _vm_hexstr(nxt()))
+            ops.append("PDir %s %s" % (title, _vm_list(es, "entry")))
+    verdicts, _, listing = out.partition("|")
+    oks = _vm_list(["true" if c == "O" else "false" for c in verdicts], "bool")
+    paths, views = [], []
+    for item in (listing.split(",") if listing else []):
+        hp, _, v = item.partition(":")
+        paths.append(_vm_path(unhex(hp)))
+        if v[0] == "d":
+            views.append("VDir %s%%N" % v[1:])
+        elif v[0] == "f":
+            tg, _, m = v[1:].partition("m")
+            views.append("VFile %d%%N" % (int(tg) * 1024 + int(m)))
+        else:
+            views.append("VSym %s" % _vm_hexstr(v[1:]))
+    return ("let r := pushes %s %s %s %s (mkStore %s []) %s in\n  (snd r, map (view_at (st_fs (fst r))) %s, length (ents (st_fs (fst r))))\n  = (%s, %s, %d)"
+            % (g, pres, wd, cwd, fs, _vm_list(ops, "pushop"), _vm_list(paths, "path"), oks, _vm_list(views, "view"), len(paths)))
+
+
+def _c11_vm_sample(d, tier, coq, build):
+    import os, subprocess
+    want = 300 if tier == "thorough" else 40
+    outs = {}
+    with open(os.path.join(d, "model.txt")) as f:
+        for l in f:
+            i, _, o = l.rstrip("\n").partition(" ")
+            outs[i] = o
+    lines = [l.rstrip("\n") for l in open(os.path.join(d, "cases.txt"))]
+    stride = max(1, len(lines) // want)
+    goals = []
+    for l in lines[::stride][:want]:
+        i, _, c = l.partition(" ")
+        if i in outs and not outs[i].startswith("BADCASE"):
+            goals.append((i, _c11_vm_goal(c, outs[i])))
+    vdir = os.path.join(build, "vm")
+    os.makedirs(vdir, exist_ok=True)
+    vf = os.path.join(vdir, "C11_cases.v")
+    with open(vf, "w") as f:
+        f.write("From Oras Require Import Base.Prelude Model.FileConfine.\n")
+        for i, g in goals:
+            f.write("\n(* %s *)\nGoal %s.\nProof. vm_compute. reflexivity. Qed.\n" % (i, g))
+    p = subprocess.run(["coqc", "-R", coq, "Oras", "-w", "-notation-overridden", vf], cwd=vdir, timeout=1500,
+                       stdout=subprocess.PIPE, stderr=subprocess.STDOUT, text=True)
+    with open(os.path.join(d, "vm_sample.txt"), "w") as f:
+        f.write("%d goals rc=%d\n%s" % (len(goals), p.returncode, p.stdout[-3000:]))
+    if p.returncode != 0:
+        return ["vm_compute re-evaluation of %d sampled cases inside Coq disagrees with the extracted runner (or does not type-check): %s"
+                % (len(goals), p.stdout[-1200:])]
+    if len(goals) < want // 2:
+        return ["vm_compute sample too small: %d goals" % len(goals)]
+    return []
+
+
+
 CONFIG = {
     "properties_file": "Properties/C11.v",
     "proof_files": ["Base/Prelude.v", "Proofs/FileConfine.v"],
@@ -59,6 +183,7 @@ CONFIG = {
     "ml_main": "c11_main.ml",
     "harness": "c11",
     "case_to_replay": _c11_case,
+    "post_model": _c11_vm_sample,
     "timeout_quick": 600,
     "timeout_thorough": 3000,
     "timeout_search": 900,
